@@ -67,6 +67,10 @@ type Op struct {
 	NoKC   bool              `json:"nokc,omitempty"` // Query without any KeyConditionExpression field
 	Filter string            `json:"filter,omitempty"`
 	Proj   string            `json:"proj,omitempty"` // ProjectionExpression (get, query, scan)
+	// read options (get, query, scan, batchget): they may narrow what THIS call returns, never what is stored
+	AttrsToGet []string `json:"attrstoget,omitempty"` // legacy AttributesToGet
+	Consistent bool     `json:"consistent,omitempty"` // ConsistentRead
+	Select     string   `json:"select,omitempty"`     // query, scan: ALL_ATTRIBUTES | COUNT | SPECIFIC_ATTRIBUTES ...
 	Names  map[string]string `json:"names,omitempty"`
 	Values val.Item          `json:"values,omitempty"`
 	Index  string            `json:"index,omitempty"`
